@@ -117,7 +117,7 @@ func stressChild(line string) string {
 			if s != "" {
 				return fmt.Sprintf("FAIL attempt %d: %s", a, s)
 			}
-		case <-time.After(5 * time.Second):
+		case <-time.After(time.Duration(envInt("C16_ATTEMPT_S", 5)) * time.Second):
 			return fmt.Sprintf("FAIL hang: attempt %d did not finish within 5s, blocked in phase `%s`", a, phase.Load())
 		}
 	}
@@ -140,7 +140,9 @@ func attempt(r *hx.Rng, period time.Duration, users, uses int, target string, ph
 	root := rate.New(rootCap, period)
 	lims := []stressLim{{l: root, parent: -1, cap: rootCap}}
 	nkids, maxDepth := r.Range(1, 5), 3
-	if r.Chance(1, 6) { // depth up to 6, 17+ limiters
+	// (not on one P with a period below 20 µs: a tick over 40 limiters and hundreds of waiting requests takes longer
+	// than the period, the ticker goroutine then owns the only P and the callers crawl — slow, not a hang)
+	if r.Chance(1, 6) && !(period < 20*time.Microsecond && runtime.GOMAXPROCS(0) == 1) { // depth up to 6, 17+ limiters
 		nkids, maxDepth = r.Range(17, 40), 6
 	}
 	for i, k := 0, nkids; i < k; i++ {
@@ -193,6 +195,9 @@ func attempt(r *hx.Rng, period time.Duration, users, uses int, target string, ph
 			if nc < 0 {
 				nc = 0
 			}
+			if r.Chance(1, 10) {
+				nc = hx.Pick(r, []int{-1, minInt, -maxInt}) // stored as 0
+			}
 			changes = append(changes, capChange{li, nc})
 			if nc > maxCap[li] {
 				maxCap[li] = nc
@@ -208,7 +213,7 @@ func attempt(r *hx.Rng, period time.Duration, users, uses int, target string, ph
 		capSet[i] = map[int]bool{lims[i].cap: true}
 	}
 	for _, ch := range changes {
-		capSet[ch.lim][ch.cap] = true
+		capSet[ch.lim][max(ch.cap, 0)] = true
 	}
 	var readerFault atomic.Value
 	var stopReaders atomic.Bool
@@ -219,7 +224,9 @@ func attempt(r *hx.Rng, period time.Duration, users, uses int, target string, ph
 		go func() {
 			defer rwg.Done()
 			wasClosed := make([]bool, len(lims))
-			for !stopReaders.Load() {
+			// never spin: with GOMAXPROCS(1) a busy reader would starve the goroutines it is supposed to run against
+			for it := 0; it < 4000 && !stopReaders.Load(); it++ {
+				runtime.Gosched()
 				i := rr.Intn(len(lims))
 				l := lims[i].l
 				switch rr.Intn(4) {
@@ -246,9 +253,6 @@ func attempt(r *hx.Rng, period time.Duration, users, uses int, target string, ph
 						readerFault.Store(fmt.Sprintf("Closed() of limiter %d went back to false", i))
 					}
 					wasClosed[i] = c
-				}
-				if rr.Chance(1, 3) {
-					runtime.Gosched()
 				}
 			}
 		}()
